@@ -38,6 +38,7 @@ type Object struct {
 	HasTo       bool
 	From        QName // view / materialized view source
 	Select      string
+	Indexes     map[string]string // data-skipping indexes added by ALTER: name -> definition
 	canon       *lazyCanon
 }
 
@@ -54,6 +55,12 @@ func (o *Object) clone() *Object {
 	n.Settings = make(map[string]string, len(o.Settings))
 	for k, v := range o.Settings {
 		n.Settings[k] = v
+	}
+	if o.Indexes != nil {
+		n.Indexes = make(map[string]string, len(o.Indexes))
+		for k, v := range o.Indexes {
+			n.Indexes[k] = v
+		}
 	}
 	n.canon = nil
 	return &n
@@ -101,6 +108,14 @@ func (o *Object) buildCanon() string {
 		}
 		sort.Strings(tt)
 		fmt.Fprintf(&sb, " ttl=[%s]", strings.Join(tt, " | "))
+	}
+	if len(o.Indexes) > 0 {
+		is := make([]string, 0, len(o.Indexes))
+		for k, v := range o.Indexes {
+			is = append(is, k+" "+v)
+		}
+		sort.Strings(is)
+		fmt.Fprintf(&sb, " indexes=[%s]", strings.Join(is, " | "))
 	}
 	if len(o.Settings) > 0 {
 		ks := make([]string, 0, len(o.Settings))
@@ -616,6 +631,29 @@ func (c *Catalogue) Apply(s *Stmt, defDB string) error {
 					o.Cols = append(o.Cols, a.Col)
 				}
 				added[a.Col.Name] = true
+			case "add_index":
+				if _, ok := o.Indexes[a.Index]; ok {
+					if a.IfNotExists {
+						continue
+					}
+					return exc(44, "ILLEGAL_COLUMN", "Cannot add index %s: index with this name already exists", a.Index)
+				}
+				if o.Indexes == nil {
+					o.Indexes = map[string]string{}
+				}
+				o.Indexes[a.Index] = a.IndexDef
+			case "drop_index":
+				if _, ok := o.Indexes[a.Index]; !ok {
+					if a.IfExists {
+						continue
+					}
+					return exc(36, "BAD_ARGUMENTS", "Cannot find index %s to drop", a.Index)
+				}
+				delete(o.Indexes, a.Index)
+			case "materialize_index":
+				if _, ok := o.Indexes[a.Index]; !ok && !a.IfExists {
+					return exc(36, "BAD_ARGUMENTS", "Cannot find index %s to materialize", a.Index)
+				}
 			case "modify_order_by":
 				if o.Kind != KMergeTree {
 					return exc(48, "NOT_IMPLEMENTED", "MODIFY ORDER BY is not supported by engine of %s", q)
